@@ -683,7 +683,35 @@ func (ex *Exec) havocComps(st *State, prefixes map[string]bool) {
 	}
 }
 
+// appendOnlyCell: every store to the local inside the loop is x = append(x, ...).
+func appendOnlyCell(li *loopInfo, c *ssa.Alloc) bool {
+	found := false
+	for b := range li.blocks {
+		for _, in := range b.Instrs {
+			st, ok := in.(*ssa.Store)
+			if !ok || st.Addr != c {
+				continue
+			}
+			call, ok := st.Val.(*ssa.Call)
+			if !ok {
+				return false
+			}
+			bi, ok := call.Call.Value.(*ssa.Builtin)
+			if !ok || bi.Name() != "append" {
+				return false
+			}
+			ld, ok := call.Call.Args[0].(*ssa.UnOp)
+			if !ok || ld.X != c {
+				return false
+			}
+			found = true
+		}
+	}
+	return found
+}
+
 func (ex *Exec) cutLoop(fr *Frame, st *State, li *loopInfo) {
+	preAlloc := st.alloc
 	ex.checkInvariants(fr, st, li, "inv-init")
 	ws := ex.loopWrites(fr, li)
 	// components not yet known but possibly written later in the loop body
@@ -719,6 +747,14 @@ func (ex *Exec) cutLoop(fr *Frame, st *State, li *loopInfo) {
 		t := c.Type().Underlying().(*types.Pointer).Elem()
 		nv := ex.freshVal(t, "lv_"+c.Comment)
 		ex.validRefs(st, nv, t)
+		if kindOf(t) == KSlice && appendOnlyCell(li, c) {
+			// x = append(x, ...) is the only write: the backing store is the one
+			// from before the loop or one allocated inside the loop
+			if oa, ok := cur.(*Agg); ok {
+				nr, or0 := sc(nv.(*Agg).F[0]).T, sc(oa.F[0]).T
+				ex.assume(st, or(eq(nr, or0), not(sel(preAlloc, nr))))
+			}
+		}
 		st.cells[c] = nv
 	}
 	if ws.ghost {
